@@ -68,6 +68,18 @@ def replay(pid, path):
             print(f"VIOLATION property={pid} replay={path}")
             return 1
         return 0
+    if isinstance(payload.get("replay"), dict) and "history" in payload["replay"]:
+        con = registry[payload["function"]]
+        h = payload["replay"]["history"]
+        vi = h["variant_index"]
+        import random
+        r = pipeline.history_probe(repo, con, vi, con.variants()[vi], _fix(h["model"]), registry, random.Random(0), edge=h["edge_added_in_place"])
+        print(json.dumps(r, indent=1, default=str))
+        if r:
+            print(f"VIOLATION property={pid} replay={path}")
+            return 1
+        print("replay: the second call on the mutated object agrees with a call on a fresh graph now")
+        return 0
     if "replay" in payload and "model" in payload["replay"]:
         con = registry[payload["function"]]
         r = payload["replay"]
